@@ -8,6 +8,7 @@ from hypothesis import strategies as st
 
 from .. import gens, refs
 from ..runner import Sub
+from . import probes
 from .common import L, Checker, arr
 
 PROPERTY_ID = "C01"
@@ -20,6 +21,7 @@ RULE = ("a case = (entry point, arguments): every public constructor of base fun
         "[0..0 1], unit quaternion norm, finite, correct shape, never None - to 1e-9. Non-trivial: angle within 1e-6 of a "
         "special value, or axis length outside [0.5,2], or |t|>1e3, or deg, or non-default order, or tree depth>=2, or "
         "multi-valued.")
+RULE = RULE + probes.RULE_TEXT + (probes.AUG_TEXT if PROPERTY_ID in probes.AUG_PROPS else "")
 ASSUMPTIONS = ["validity predicate only (class identity of results is C08's business)",
                "axis lengths in (2e-15, 1e-3) are not generated: the statement acknowledges the absolute zero threshold",
                "trnorm input is a member perturbed by at most 1e-2"]
@@ -331,6 +333,8 @@ def validate(c, site, val, kind):
 
 
 def check_case(case):
+    if case.get("kind") in ("hist", "aug"):
+        return probes.run(case, PROPERTY_ID)
     if case["kind"] == "entry":
         name = case["entry"]
         p = case["p"]
@@ -366,6 +370,8 @@ def _near_special(a):
 
 
 def classify(case):
+    if case.get("kind") in ("hist", "aug"):
+        return probes.classify(case)
     lab = {"kind:" + case["kind"]: True}
     if case["kind"] == "entry":
         p = case["p"]
@@ -387,4 +393,5 @@ def subchecks(tier):
     return [
         Sub("entry", strategy=s_entry(), n=(600, 20000), shards=(10, 16)),
         Sub("tree", strategy=s_tree(3 if tier == "quick" else 5), n=(250, 8000), shards=(6, 16)),
+        *probes.subs(PROPERTY_ID),
     ]
